@@ -355,7 +355,7 @@ def shrink(case, ob, detail):
 
     def fails(content):
         open(path, "wb").write(content)
-        rc, out, err = env.client("dcat", ["--plain", "--files", path], cfg=cfg, timeout=60)
+        rc, out, err = env.client("dcat", ["--plain", "--files", path], cfg=cfg, timeout=20)
         return rc != 0 or out != spec(case["maxlen"], content), rc, out, err
     content = bytes.fromhex(case["content"])
     best = content
@@ -368,12 +368,16 @@ def shrink(case, ob, detail):
         rounds += 1
         lines = best.split(b"\n")
         for i in range(len(lines)):
+            if _t.time() > t_end:
+                break
             cand = b"\n".join(lines[:i] + lines[i + 1:])
             if len(cand) < len(best) and fails(cand)[0]:
                 best = cand; improved = True; break
         if improved:
             continue
         for i, l in enumerate(lines):
+            if _t.time() > t_end:
+                break
             if len(l) > 1:
                 for cut in (l[:len(l) // 2], l[len(l) // 2:], l[1:], l[:-1]):
                     cand = b"\n".join(lines[:i] + [cut] + lines[i + 1:])
